@@ -7,6 +7,7 @@ import (
 	"encoding/json"
 	"fmt"
 	"math"
+	"reflect"
 	"runtime"
 	"strings"
 	"sync"
@@ -561,5 +562,58 @@ func main() {
 		out.Check(idx, "(0%nat, 0%nat)")
 	}
 	out.Notes = append(out.Notes, fmt.Sprintf("generated SQL rejected by the parser: %d", parseFail))
+	// ---------- metadata statements (show namespaces / metrics / tag keys / tag values / fields): what the root sends to a leaf
+	// for them is stmt.MetricMetadata through MarshalJSON / UnmarshalJSON; parsed twice they are equal, decoded they are
+	// deeply equal to what was parsed (twice over: root -> intermediate -> leaf).  Judged directly.
+	{
+		names := []string{"cpu", "mem.used", "a b", "net|if", "日本"}
+		var texts []string
+		for _, n := range names {
+			q := "'" + n + "'"
+			texts = append(texts,
+				"show namespaces", "show namespaces where namespace='"+n[:1]+"' limit 7",
+				"show metrics", "show metrics on 'ns' where metric='"+n[:1]+"' limit 3",
+				"show fields from "+q, "show fields from "+q+" on 'ns'",
+				"show tag keys from "+q, "show tag keys from "+q+" on 'ns'",
+				"show tag values from "+q+" with key=host", "show tag values from "+q+" on 'ns' with key='ho st' where host='a' limit 5",
+				"show tag values from "+q+" with key=host where host like 'a*' and zone in ('x','y')")
+		}
+		for _, text := range texts {
+			st, err := sql.Parse(text)
+			if err != nil {
+				out.Count("metadata-sql:rejected")
+				continue
+			}
+			m, ok := st.(*stmt.MetricMetadata)
+			if !ok {
+				continue
+			}
+			idx := out.Case(map[string]interface{}{"kind": "metadata-sql", "sql": text}, m.Type == stmt.TagValue || m.Type == stmt.Field)
+			out.Count("metadata-sql:" + m.Type.String())
+			st2, err2 := sql.Parse(text)
+			if err2 != nil || !reflect.DeepEqual(st, st2) {
+				out.Violation(idx, "metadata-parse-not-deterministic", text, nil)
+			}
+			cur := m
+			for hop := 0; hop < 2; hop++ {
+				wire, err := cur.MarshalJSON()
+				if err != nil {
+					out.Violation(idx, "metadata-marshal", err.Error(), nil)
+					break
+				}
+				next := &stmt.MetricMetadata{}
+				if err := next.UnmarshalJSON(wire); err != nil {
+					out.Violation(idx, "metadata-unmarshal", fmt.Sprintf("%s: %v", wire, err), nil)
+					break
+				}
+				if !reflect.DeepEqual(m, next) {
+					out.Violation(idx, "metadata-statement-changed-on-the-wire", fmt.Sprintf("%s: parsed type %s, after hop %d type %s; wire %s", text, m.Type, hop+1, next.Type, wire), nil)
+					break
+				}
+				cur = next
+			}
+			out.Check(idx, "(0%nat, 0%nat)")
+		}
+	}
 	out.Finish()
 }
